@@ -36,6 +36,13 @@ theorem C03_params_order :
     Gen.C03.NAT_DNS_PORT = 53 ∧ Gen.C03.NFT_DNS_PORT = 53 ∧ Gen.C03.TPROXY_DNS_PORT = 53 ∧
     Gen.C03.PF_FREEBSD_DNS_PORT = 53 ∧ Gen.C03.PF_OPENBSD_DNS_PORT = 53 := by decide
 
+/-- nft: the packet walk (`verdictNft`) takes the chain NAMED `output` for locally generated
+packets and the chain NAMED `prerouting` for forwarded ones.  That is the kernel's behaviour only
+if each of the two base chains is declared `type nat hook <its own name>`; the declarations are
+re-read from `nft.py` on every run and pinned here (the hook attachment itself is evaluated by
+the harness's oracle, which traverses base chains by the hook they were registered at). -/
+theorem C03_params_nft_hooks : Gen.C03.NFT_BASE_HOOKS_OK = true := by decide
+
 /-! ## 1. The ordering argument, independent of any method -/
 
 /-- `key_order_iff_spec_order`: on well-formed entries, "takes precedence" in the sense of
